@@ -375,6 +375,12 @@ func (h *vHist) vAltFunc(f *vFunc, tag string) *vFunc {
 	return g
 }
 
+func verifC16c() { // three registrations with group edges over two scopes
+	verifC16run(&vProfile{name: "C16c", clauses: []string{"C16."},
+		maxScopes: 2, nRegs: 3, maxParams: 1, maxResults: 1, pForms: 2, rForms: 1, names: 1, groups: true, objOnly: true,
+		faults: 1, nInvokes: 1, invParams: 0})
+}
+
 func verifC15run(p *vProfile) {
 	h := &vHist{p: p}
 	a, b := h.newWorlds(nil, nil)
@@ -416,7 +422,7 @@ func verifC15b() { // groups and two results
 
 func init() {
 	for n, f := range map[string]func(){
-		"verifC16a": verifC16a, "verifC16b": verifC16b, "verifC15a": verifC15a, "verifC15b": verifC15b,
+		"verifC16a": verifC16a, "verifC16b": verifC16b, "verifC16c": verifC16c, "verifC15a": verifC15a, "verifC15b": verifC15b,
 	} {
 		verifEntries[n] = f
 	}
